@@ -45,7 +45,7 @@ type event struct {
 	Conc    bool          `json:"conc"`
 }
 
-var reSeq = regexp.MustCompile(`Sequence No\.: (\d+),`)
+var reSeq = regexp.MustCompile(`(?i)\bseq\w*[ .]*(?:no\.?|number|num|#)?[ .]*[:=][ \t]*(\d+)`)
 var reCache = map[string]*regexp.Regexp{}
 var reMarker = regexp.MustCompile(`vfid-(\d+)-`)
 var separator = strings.Repeat("=", 80)
@@ -313,26 +313,68 @@ func main() {
 			fail(cur, "response-format", err.Error(), ev)
 			continue
 		}
-		var ids []uint32
-		bad := false
-		for _, e := range ents {
+		// Which message is an entry? Data messages carry their id in a value (the marker field), which the
+		// property obliges the entry to show. A template message has no values: it is recognised by the
+		// sequence number of a header line if the rendering has one, and otherwise by its position (the
+		// window the model expects, or its identified neighbours in a concurrent query) - the check of its
+		// field names below then confirms or refutes the guess.
+		want := window
+		if n >= 0 && n < len(window) {
+			want = window[len(window)-n:]
+		}
+		ids := make([]uint32, len(ents))
+		known := make([]bool, len(ents))
+		for i, e := range ents {
 			m := reMarker.FindStringSubmatch(e)
 			if m == nil {
-				m = reSeq.FindStringSubmatch(e) // template messages carry no values: they are recognised by the header line
+				m = reSeq.FindStringSubmatch(e)
 			}
-			if m == nil {
-				fail(cur, "entry-without-id", "an entry does not show its sequence number", ev)
-				bad = true
-				break
+			if m != nil {
+				id, _ := strconv.ParseUint(m[1], 10, 32)
+				ids[i], known[i] = uint32(id), true
 			}
-			id, _ := strconv.ParseUint(m[1], 10, 32)
-			ids = append(ids, uint32(id))
-			a, ok := arr[uint32(id)]
+		}
+		bad := false
+		for i := range ents {
+			if known[i] {
+				continue
+			}
+			c.Add("entries_identified_by_position", 1)
+			if !ev.Conc {
+				if len(ents) != len(want) {
+					break // reported as window-size below
+				}
+				ids[i] = want[i]
+				continue
+			}
+			for d := 1; d < len(ents) && ids[i] == 0; d++ {
+				if i-d >= 0 && known[i-d] {
+					ids[i] = ids[i-d] + uint32(d)
+				} else if i+d < len(ents) && known[i+d] && ids[i+d] > uint32(d) {
+					ids[i] = ids[i+d] - uint32(d)
+				}
+			}
+		}
+		if !ev.Conc && len(ents) != len(want) {
+			fail(cur, "window-size", fmt.Sprintf("%s returned %d entries; the last min(n, stored) is %d (stored %d)", ev.URL, len(ents), len(want), len(window)), ev)
+			continue
+		}
+		for i, e := range ents {
+			id := ids[i]
+			if id == 0 {
+				continue // a concurrent response without any identifiable entry: nothing to anchor on
+			}
+			a, ok := arr[id]
 			if !ok {
 				if ev.Conc {
 					continue // the writer logs an arrival after it completed; a reader may see it earlier
 				}
 				fail(cur, "entry-never-arrived", fmt.Sprintf("the response holds an entry for message %d, which did not arrive in this history", id), ev)
+				bad = true
+				break
+			}
+			if !known[i] && a.Kind != "template" {
+				fail(cur, "entry-without-id", fmt.Sprintf("entry %d shows no message id in any value, and the message expected at its position (%d) is a data message, whose values include its id", i, id), ev)
 				bad = true
 				break
 			}
@@ -355,6 +397,10 @@ func main() {
 			continue
 		}
 		if ev.Conc {
+			if len(ids) > 0 && ids[0] == 0 {
+				c.Add("concurrent_responses_without_identifiable_entry", 1)
+				continue
+			}
 			for i := 1; i < len(ids); i++ {
 				if ids[i] != ids[i-1]+1 {
 					fail(cur, "window-not-contiguous", fmt.Sprintf("concurrent query: entry ids %d then %d", ids[i-1], ids[i]), ev)
@@ -368,14 +414,6 @@ func main() {
 				fail(cur, "entry-from-the-future", fmt.Sprintf("entry %d returned; only %d arrivals had started when the request returned", ids[len(ids)-1], ev.Started), ev)
 			}
 			c.Add("concurrent_queries", 1)
-			continue
-		}
-		want := window
-		if n >= 0 && n < len(window) {
-			want = window[len(window)-n:]
-		}
-		if len(ids) != len(want) {
-			fail(cur, "window-size", fmt.Sprintf("%s returned %d entries; the last min(n, stored) is %d (stored %d)", ev.URL, len(ids), len(want), len(window)), ev)
 			continue
 		}
 		for i := range ids {
